@@ -103,6 +103,34 @@ def _check_graph(t, tg, called, kw):
     return True
 
 
+def dag_history(rid, mid, out, v0, v1, v2, v3, v4, v5):
+    """inside one construct_dag(): an intermediate is requested and evaluated first, then a downstream
+    output is requested: the recorded graph still has an edge for every producer-consumer dependency"""
+    L.reset()
+    t = R[rid]
+    vals = (v0, v1, v2, v3, v4, v5)
+    with NoTracing():
+        log = []
+        p = runt.make(t, log, lazy=True)
+        runt.warm(p)
+        kw = {n: v for n, v in zip(p.root_args(out), vals)}
+        kw_mid = {n: kw[n] for n in p.root_args(mid)}
+    exp, called, used, memo = runt.ref_eval(t, out, kw)
+    exp_mid, _, _, _ = runt.ref_eval(t, mid, kw_mid)
+    with construct_dag() as tg:
+        r1 = p(mid, **kw_mid)
+        if not (r1.evaluate() == exp_mid):
+            return fail("intermediate value")
+        r2 = p(out, **kw)
+        if not _check_graph(t, tg, called, kw):
+            return False
+        if not (r2.evaluate() == exp):
+            return fail("value")
+    if not runt.needed_ok(t, called, list(log), set(kw)):
+        return fail("needed functions were not run exactly once across the two requests")
+    return True
+
+
 def lazy_cut(rid, out, ci, v0, v1, v2, v3, v4, v5):
     """lazy call with a supplied intermediate: producer not executed"""
     L.reset()
@@ -178,6 +206,19 @@ def obligations(tier):
                 )
             )
         out = outs[-1]
+        prodm = runt.producers(t)
+        mids = [prm for prm in prodm[out][1].params if prm in prodm and prm not in prodm[out][1].bound]
+        if mids and not isinstance(out, tuple):
+            obs.append(
+                Ob(
+                    f"daghist_{rid}_{mids[0]}_{out}",
+                    VALS,
+                    [" and ".join(f"0 <= v{i} <= 1" for i in range(6))],
+                    f"H.dag_history({rid!r}, {mids[0]!r}, {out!r}, {VARGS})",
+                    timeout=200,
+                    bounds=f"{rid}: inside one construct_dag(): request and evaluate {mids[0]}, then request {out}; graph edges and single execution; values 0..1",
+                )
+            )
         nc = len(runt.valid_cuts(t, out))
         obs.append(
             Ob(
